@@ -1,0 +1,38 @@
+//go:build verif
+
+package redisemu
+
+// C01: the connection's receive side (clientCxn.go). Received-but-unparsed bytes
+// live in cc.inbound; each command consumes exactly the bytes the parser
+// reported, and every socket read goes into a buffer this call allocated
+// itself, so bytes that are still waiting in cc.inbound can never be
+// overwritten by a later read. (Slices are values in the verifier's memory
+// model, so aliasing is not visible to it; "the read buffer is fresh" is the
+// ownership condition that rules the aliasing out.)
+
+//@ func newRespDeserializer
+//@ trusted allocates a parser positioned at the start of the given bytes
+//@ modifies alloc
+//@ ensures result != nil && result.pos == 0 && result.content == content && result.nextPos < 0
+
+//@ func clientCxn.parseCommand
+//@ prop C01
+//@ safetyprop C13
+//@ requires cc != nil
+//@ modifies respDeserializer alloc map<respValue,respValue> map<respValue,struct{}> orderedRespMap respValue Builder
+//@ ensures [C01] consumes.prefix: 0 <= length && length <= len(cc.inbound)
+//@ ensures [C01] frame: cc.inbound == old(cc.inbound)
+
+//@ func net.Conn.Read
+//@ trusted reads at most len(b) bytes into b
+//@ writes b
+//@ modifies
+//@ ensures 0 <= n && n <= len(b)
+
+//@ func clientCxn.onWaitForCommand
+//@ prop C01
+//@ safetyprop none
+//@ requires cc != nil && cc.cs != nil
+//@ modifies *
+//@ assertbefore "n, err := cc.cxn.Read(buffer)" [C01] fresh.buffer: madehere(buffer) && len(buffer) > 0
+//@ assertbefore "cc.inbound = cc.inbound[length:]" [C01] consume.exact: 0 < length && length <= len(cc.inbound)
